@@ -2137,3 +2137,37 @@ def nonnull_after_completion(check: Check, repo: Repo, rule: str = "NONNULL-AFTE
             why = (f"`{v.id}` is the completed inner value and `{v.id} is not None` holds here" if ok else
                    (f"`{v.id}` is not the result of the inner completion" if not from_completion else f"nothing excludes `{v.id} is None` at this return"))
         check.ob(rule, r, f"complete_value: non-null arm returns `{unparse(v)[:50] if v is not None else None}`", ok, why)
+
+
+def future_exception_guard(check: Check, repo: Repo, mods: list[Module], rule: str = "FUTURE-EXCEPTION-GUARD") -> None:
+    from rules.language_rules import norm_facts
+
+    check.rule(
+        rule,
+        "Future.exception() raises CancelledError when the future was cancelled: every `<f>.exception()` in the execution "
+        "package is reached only under the must-fact `not <f>.cancelled()` (the cancelled case is handled first) or inside a "
+        "try that catches CancelledError / BaseException. In a done-callback an escaping CancelledError is swallowed by the "
+        "event loop's exception handler: no success or failure event is ever pushed for the task, its delivery group is "
+        "never completed and the response never terminates",
+    )
+    n = 0
+    for m in mods:
+        for fn in m.functions():
+            if isinstance(fn, ast.Lambda):
+                continue
+            calls = [c for c in walk_body(fn) if isinstance(c, ast.Call) and isinstance(c.func, ast.Attribute) and c.func.attr == "exception"
+                     and not c.args and isinstance(c.func.value, ast.Name)]
+            if not calls:
+                continue
+            ff = FactFlow(CFG(fn))
+            for c in calls:
+                f = c.func.value.id
+                facts = norm_facts(ff.facts_at(c))
+                guarded = (f"{f}.cancelled()", False) in facts
+                tried = covered_by_try(c, {"CancelledError", "BaseException"}) is not None
+                n += 1
+                check.ob(rule, c, f"{qualname_of(c)}: {f}.exception()", guarded or tried,
+                         f"`{f}.cancelled()` was excluded first" if guarded else ("inside try/except CancelledError" if tried else
+                         f"a cancelled `{f}` makes this call raise CancelledError: the outcome of the task is never recorded"))
+    if n < 2:
+        raise AnalysisError("FUTURE-EXCEPTION-GUARD: .exception() calls not found")
